@@ -104,7 +104,7 @@ func (g *progGen) pickVar(typ string) *gvar {
 	return vs[g.rng.Intn(len(vs))]
 }
 
-var genNums = []string{"0", "1", "2", "3", "7", "10", "0.5", "2.25", "100", "1e3", "123456789", "0.1", "3.75", "65535", "65536", "1e308", "5e-324"}
+var genNums = []string{"0", "1", "2", "3", "7", "10", "0.5", "2.25", "100", "1000", "123456789", "0.1", "3.75", "65535", "65536", "123456789012345678901234567890", "0.000001", "9007199254740993"}
 var genStrs = []string{`"a"`, `"bc"`, `""`, `"hello"`, `"x y"`, `"Z"`, `"abc"`, `"q\"t"`, `"tab\there"`}
 var genStrsNonASCII = []string{`"äb"`, `"héllo"`, `"日本"`, `"a€c"`}
 
@@ -538,13 +538,13 @@ func (g *progGen) stmt(ind, depth int) {
 		g.feat["for-iter"]++
 		switch r.Intn(4) {
 		case 0:
-			g.forLoop(ind, depth, "num", "range "+g.expr("[]num", 1))
+			g.forLoop(ind, depth, "num", "range "+g.growRight("[]num", 1))
 		case 1:
-			g.forLoop(ind, depth, "string", "range "+g.expr("string", 1))
+			g.forLoop(ind, depth, "string", "range "+g.growRight("string", 1))
 		case 2:
 			g.forLoop(ind, depth, "string", "range "+g.expr("{}num", 1))
 		default:
-			g.forLoop(ind, depth, "string", "range "+g.expr("[]string", 1))
+			g.forLoop(ind, depth, "string", "range "+g.growRight("[]string", 1))
 		}
 	}
 }
